@@ -213,6 +213,19 @@ func genC13(t *rapid.T) any {
 			if b.Scenario == "internal-parallelism" && w.Construct == "fn-args" {
 				sql = strings.Replace(sql, "vf_id(", rapid.SampledFrom([]string{"ASYNC.vf_id(", "SPINASYNC.vf_id(", "ASYNC.vf_id("}).Draw(t, "strategy"), 1)
 			}
+			if b.Scenario == "internal-parallelism" && !w.Wrapped && rapid.IntRange(0, 3).Draw(t, "asyncsub") == 0 {
+				// an ASYNC / SPINASYNC call whose argument is itself a sub query (row-scoped or over the document):
+				// the call's own goroutine and the sub query's bookkeeping meet on the enclosing query
+				qual := rapid.SampledFrom([]string{"ASYNC", "ASYNC", "SPINASYNC"}).Draw(t, "asyncsub.q")
+				arg := rapid.SampledFrom([]string{"(SELECT " + sc.p + " FROM " + sc.items + ")", "(SELECT COUNT(*) AS n FROM " + sc.items + ")", "(SELECT " + sc.t2c + " FROM `<-t2`)",
+					"(SELECT " + sc.p + " FROM " + sc.items + " WHERE " + sc.p + " > 1)", "(SELECT ASYNC.vf_id(" + sc.p + ") AS a FROM " + sc.items + ")"}).Draw(t, "asyncsub.arg")
+				fn := rapid.SampledFrom([]string{"FIRST(%s)", "vf_id(%s)", "ARRAY(%s, " + sc.k + ")"}).Draw(t, "asyncsub.fn")
+				sql = "SELECT " + sc.k + ", " + qual + "." + fmt.Sprintf(fn, arg) + " AS a, " + sc.s + " FROM t"
+				if rapid.Bool().Draw(t, "asyncsub.two") {
+					sql = strings.Replace(sql, " FROM t", ", ASYNC.vf_id("+arg+") AS b FROM t", 1)
+				}
+				w.Unordered = false
+			}
 			if b.Scenario == "internal-parallelism" && !w.Wrapped && rapid.IntRange(0, 3).Draw(t, "failingon") == 0 {
 				// PARALLEL joins whose ON evaluation fails for every pair (an error for the query, and nothing else:
 				// no crash, no worker left behind, no query that never returns)
